@@ -24,6 +24,7 @@ package compile
 import (
 	"encoding/xml"
 	"fmt"
+	"sort"
 
 	"github.com/sdcio/yang-parser/parse"
 	"github.com/sdcio/yang-parser/schema"
@@ -230,7 +231,17 @@ func (c *Compiler) expandModule(module *parse.Module) {
 	if err := c.expandGroupings(nod, nod, schema.Current); err != nil {
 		c.error(nod, err)
 	}
-	for _, sm := range module.GetSubmodules() {
+	// (in the order of their names: a grouping shared by two submodules is
+	// expanded in place by the first one that reaches it, and map order
+	// would make the outcome differ from run to run)
+	subs := module.GetSubmodules()
+	subnames := make([]string, 0, len(subs))
+	for sn := range subs {
+		subnames = append(subnames, sn)
+	}
+	sort.Strings(subnames)
+	for _, sn := range subnames {
+		sm := subs[sn]
 		if err := c.expandGroupings(nod, sm, schema.Current); err != nil {
 			c.error(sm, err)
 		}
